@@ -506,6 +506,7 @@ package astits
 
 //@ func newStuffingAdaptationField
 //@   ensures [W] one: bytesToStuff == 1 ==> result != nil && fresh(result) && result.IsOneByteStuffing && result.StuffingLength == 0
+//@   ensures [W] blank: result != nil && !result.HasPCR && !result.HasOPCR && !result.HasSplicingCountdown && !result.HasTransportPrivateData && !result.HasAdaptationExtensionField && len(result.TransportPrivateData) == 0 && result.TransportPrivateData == nil && result.TransportPrivateDataLength == 0
 //@   ensures [W] many: bytesToStuff != 1 ==> result != nil && fresh(result) && !result.IsOneByteStuffing && result.StuffingLength == bytesToStuff - 2 && !result.HasPCR && !result.HasOPCR && !result.HasSplicingCountdown && !result.HasTransportPrivateData && !result.HasAdaptationExtensionField && len(result.TransportPrivateData) == 0
 
 // afBody(af): bytes of an adaptation field after its length byte, when every optional part is as declared
@@ -1085,7 +1086,8 @@ package astits
 
 //@ func (*Demuxer).Rewind
 //@   requires dmx != nil
-//@   modifies dmx.dataBuffer, dmx.packetBuffer, dmx.packetPool
+//@   modifies dmx.dataBuffer, dmx.packetBuffer, dmx.packetPool, rdPos(dmx.r), rdFail(dmx.r)
+//@   ensures [C20] start: err == nil && n == 0 ==> rdPos(dmx.r) == 0
 //@   ensures [C20] clean: len(dmx.dataBuffer) == 0 && dmx.packetBuffer == nil && dmx.packetPool != nil && fresh(dmx.packetPool) && len(dmx.packetPool.b) == 0
 //@   ensures [C20] samemap: dmx.packetPool.programMap == old(dmx.programMap) && dmx.programMap == old(dmx.programMap)
 //@   ensures [C20] offset: err == nil ==> n == 0 || n == -1
@@ -1096,17 +1098,67 @@ package astits
 // ---------------------------------------------------------------------------
 // muxer.go
 
-// WriteTables is not verified yet: its frame is assumed (it touches the table state, the
-// counters and versions, the internal buffers and the output, never the retransmit counter,
-// the stream list or the elementary-stream contexts).
+// WriteTables is not verified yet: its frame and the following are assumed (it touches the table state, the
+// counters and versions, the internal buffer and its writer, and the output - never the retransmit counter, the
+// stream list or the elementary-stream contexts; it leaves the internal writer on a byte boundary; on success it
+// reports the bytes it emitted, a whole number of packets).
 //@ extern (*Muxer).WriteTables
-//@   modifies m.pmUpdated, m.pmtUpdated, all(m.patVersion), all(m.pmtVersion), all(m.patCC), all(m.pmtCC), sinkN(m.w), sinkData(m.w), sinkFails(m.w)
+//@   modifies m.pmUpdated, m.pmtUpdated, all(m.patVersion), all(m.pmtVersion), all(m.patCC), all(m.pmtCC), sinkN(m.w), sinkData(m.w), sinkFails(m.w), writer(m.bufWriter)
+//@   ensures [C04,C17,C05] assumed: aligned(m.bufWriter) && (result1 == nil ==> sinkN(m.w) == old(sinkN(m.w)) + result0 && 0 <= result0 && result0 <= 0x100000 && m188(result0))
 
 //@ func (*Muxer).retransmitTables
-//@   requires m != nil
-//@   modifies m.tablesRetransmitCounter, m.pmUpdated, m.pmtUpdated, all(m.patVersion), all(m.pmtVersion), all(m.patCC), all(m.pmtCC), sinkN(m.w), sinkData(m.w), sinkFails(m.w)
+//@   use m188zero
+//@   requires m != nil && aligned(m.bufWriter)
+//@   modifies m.tablesRetransmitCounter, m.pmUpdated, m.pmtUpdated, all(m.patVersion), all(m.pmtVersion), all(m.patCC), all(m.pmtCC), sinkN(m.w), sinkData(m.w), sinkFails(m.w), writer(m.bufWriter)
+//@   ensures [C04,C17,C05] count: aligned(m.bufWriter) && (result1 == nil ==> sinkN(m.w) == old(sinkN(m.w)) + result0 && 0 <= result0 && result0 <= 0x100000 && m188(result0))
 //@   let c0 = old(m.tablesRetransmitCounter)
 //@   let due = force || c0 + 1 >= m.tablesRetransmitPeriod
 //@   ensures [C17] notdue: !due ==> result0 == 0 && result1 == nil && m.tablesRetransmitCounter == c0 + 1 && sinkN(m.w) == old(sinkN(m.w))
 //@   ensures [C17] reset: due && result1 == nil ==> m.tablesRetransmitCounter == 0
 //@   ensures [C17,C05] failed: due && result1 != nil ==> m.tablesRetransmitCounter == c0 + 1
+
+// bytes.Buffer as the sink of the internal writer (assumed, per its documentation): Reset empties it, Bytes
+// returns the bytes written since.
+//@ extern (*bytes.Buffer).Reset
+//@   modifies sinkN(b), sinkData(b)
+//@   ensures [C04,C05,C17,C01] empty: sinkN(b) == 0
+//@ extern (*bytes.Buffer).Bytes
+//@   ensures [C04,C05,C17,C01] view: len(result) == sinkN(b) && 0 <= len(result) && len(result) <= cap(result) && allocated(result)
+
+// WriteData: the PES packet is cut into whole 188-byte TS packets - every packet handed to writePacket fills its
+// 188 bytes exactly (header, adaptation field with its stuffing, payload: nothing is left to 0xff padding), the
+// count returned is the number of bytes emitted, the unit start indicator and the PES header go out exactly once,
+// on the first packet, the tables are considered first and forced at a random access point of the PCR PID, an
+// unknown PID is rejected before anything is emitted or counted, and each packet carries the freshly advanced
+// continuity counter of its stream.
+//@ func (*Muxer).WriteData
+//@   opt noframe
+//@   opt noloopframe
+//@   use m188zero m188step
+//@   requires 0 <= wN(m.bitsWriter) && wN(m.bitsWriter) < 0x10000000000
+//@   requires muxOK(m) && d != nil && d.PES != nil && d.PES.Header != nil && d.PES.Header.OptionalHeader != nil && ohOK(d.PES.Header.OptionalHeader)
+//@   requires allocated(d.PES.Data) && 0 <= len(d.PES.Data) && len(d.PES.Data) < 0x100000000
+//@   requires d.AdaptationField != nil ==> afOK(d.AdaptationField) && d.AdaptationField.StuffingLength == 0 && !d.AdaptationField.IsOneByteStuffing && afBody(d.AdaptationField) <= 183
+//@   requires has(m.esContexts, u32(d.PID)) ==> ctxOK(m.esContexts[u32(d.PID)])
+//@   let hdrLen = 6 + 3 + ohData(d.PES.Header.OptionalHeader)
+//@   loop 0 invariant [C04,C05,C17] mux: muxOK(m)
+//@   loop 0 invariant [C04,C05,C17] ctx: ctxOK(ctx)
+//@   loop 0 invariant [C04,C05,C17] pes: d.PES != nil && d.PES.Header != nil && d.PES.Header.OptionalHeader != nil && ohOK(d.PES.Header.OptionalHeader)
+//@   loop 0 invariant [C04,C05,C17] af: d.AdaptationField != nil ==> afOK(d.AdaptationField) && !d.AdaptationField.IsOneByteStuffing && afBody(d.AdaptationField) - d.AdaptationField.StuffingLength <= 183 && d.AdaptationField.StuffingLength <= 184
+//@   loop 0 invariant [C04,C05,C17] progress: 0 <= payloadBytesWritten && payloadBytesWritten <= len(d.PES.Data) && (writeAf ==> payloadStart && d.AdaptationField != nil && d.AdaptationField.StuffingLength == 0) && (payloadStart ==> payloadBytesWritten == 0)
+//@   loop 0 invariant [C04,C05,C17] count: wN(m.bitsWriter) - bytesWritten == atentry(wN(m.bitsWriter)) - atentry(bytesWritten) && atentry(bytesWritten) <= bytesWritten && bytesWritten - atentry(bytesWritten) <= 188 * (payloadBytesWritten + 2) && 0 <= atentry(bytesWritten) && atentry(bytesWritten) <= 0x100000 && atentry(wN(m.bitsWriter)) < 0x10000200000
+//@   loop 0 invariant [C04,C05,C17] whole: m188(bytesWritten)
+//@   loop 0 invariant [C04,C05,C17,C12] hdronce: payloadStart == (bytesWritten == atentry(bytesWritten))
+//@   loop 0 invariant [C05] ccidle: bytesWritten == atentry(bytesWritten) ==> ctx.cc.value == atentry(ctx.cc.value)
+//@   at call (*Muxer).retransmitTables#0 assert [C17] force: $force == (d.AdaptationField != nil && d.AdaptationField.RandomAccessIndicator && d.PID == m.pmt.PCRPID)
+//@   at call (*Muxer).retransmitTables#0 assert [C17] first: wN(m.bitsWriter) == old(wN(m.bitsWriter))
+//@   at call writePESData#0 assert [C04,C12] hdronce: $isPayloadStart == (bytesWritten == atentry(bytesWritten))
+//@   at call writePacket#0 assert [C04] fills: 4 + ite($p.Header.HasAdaptationField, afBytes($p.AdaptationField), 0) + len($p.Payload) == 188
+//@   at call writePacket#0 assert [C04] pusi: $p.Header.HasPayload && $p.Header.PayloadUnitStartIndicator == (bytesWritten == atentry(bytesWritten))
+//@   at call writePacket#0 assert [C05] ccfresh: $p.Header.ContinuityCounter == u8(ctx.cc.value) && ctx.cc.value <= 15 && $p.Header.PID == d.PID
+//@   loop 0 assert [C05] ccstep: (bytesWritten == pre(bytesWritten) || bytesWritten == pre(bytesWritten) + 188) && ctx.cc.value == ite(bytesWritten == pre(bytesWritten), pre(ctx.cc.value), ite(pre(ctx.cc.value) + 1 > 15, 0, pre(ctx.cc.value) + 1))
+//@   ensures [C05] ccidle: result1 == nil && wN(m.bitsWriter) == old(wN(m.bitsWriter)) && has(m.esContexts, u32(d.PID)) ==> m.esContexts[u32(d.PID)].cc.value == old(m.esContexts[u32(d.PID)].cc.value)
+//@   ensures [C04,C17] unknownpid: !has(m.esContexts, u32(d.PID)) ==> result0 == 0 && result1 == ErrPIDNotFound && wN(m.bitsWriter) == old(wN(m.bitsWriter)) && m.tablesRetransmitCounter == old(m.tablesRetransmitCounter)
+//@   ensures [C04] count: result1 == nil ==> wN(m.bitsWriter) == old(wN(m.bitsWriter)) + result0
+//@   ensures [C04] whole: result1 == nil ==> m188(result0)
+//@   ensures [C04] stuffingreset: result1 == nil && d.AdaptationField != nil ==> d.AdaptationField.StuffingLength == 0
